@@ -21,8 +21,17 @@ Definition T_event (t : T) : option event :=
   | _ => None
   end.
 
-Definition T_wq (t : T) : option (list (list N)) :=
-  match getL t with Some l => mapM getListN l | None => None end.
+(* a call of write: ((words) ()) returns, ((words) (j)) panics after j words *)
+Definition T_wcall (t : T) : option wcall :=
+  match t with
+  | L [v; o] => match getListN v, getOptN o with
+                | Some v, Some o => Some (v, option_map N.to_nat o)
+                | _, _ => None
+                end
+  | _ => None
+  end.
+Definition T_wq (t : T) : option (list wcall) :=
+  match getL t with Some l => mapM T_wcall l | None => None end.
 
 Definition tid_of (nw : nat) (n : N) : tid :=
   let i := N.to_nat n in if Nat.ltb i nw then TW i else TR (i - nw).
@@ -35,17 +44,17 @@ Definition positions (st : state) : list nat :=
   map (fun r => (length write_points + index_of (rpc r) read_points 0)%nat) (rs st).
 
 (* Pcheck of C42 on the implementation's list of read returns *)
-Definition reads_okb (init : list N) (wqs : list (list (list N))) (evs : list event) : bool :=
+Definition reads_okb (k : nat) (init : list N) (wqs : list (list wcall)) (evs : list event) : bool :=
   match wqs with
-  | [writes] => forallb (ev_okb init writes) evs
+  | [writes] => forallb (ev_okb k init writes) evs
   | _ => forallb (ev_completeb init wqs) evs
   end.
 
 (* inputs the generator can emit: 1..8 words, all values of k words.  On anything else
    (reachable only through the generic shrinker) Pcheck is vacuously true. *)
-Definition wf42 (k : nat) (init : list N) (wqs : list (list (list N))) : bool :=
+Definition wf42 (k : nat) (init : list N) (wqs : list (list wcall)) : bool :=
   Nat.leb 1 k && Nat.leb k 8 && Nat.eqb (length init) k &&
-  forallb (forallb (fun v => Nat.eqb (length v) k)) wqs.
+  forallb (forallb (fun w : wcall => Nat.eqb (length (fst w)) k)) wqs.
 
 Definition main42 (input observed : T) : T :=
   match input with
@@ -59,7 +68,7 @@ Definition main42 (input observed : T) : T :=
           let pc := match observed with
                     | L [L evs; _; _] =>
                         match mapM T_event evs with
-                        | Some evs => negb (wf42 k init wqs) || reads_okb init wqs evs
+                        | Some evs => negb (wf42 k init wqs) || reads_okb k init wqs evs
                         | None => false
                         end
                     | _ => false
@@ -67,7 +76,7 @@ Definition main42 (input observed : T) : T :=
           L [model; tB pc]
       | _, _, _, _, _ => tErr 2
       end
-  | L [I 1%Z; nwrites; nreaders; nreads] =>
+  | L [I 1%Z; nwrites; nreaders; nreads; _] =>
       (* free-running stress: the observation is (torn, stale, non-monotone, total reads) *)
       match getN nwrites, getN nreaders, getN nreads with
       | Some _, Some r, Some n =>
